@@ -9,3 +9,6 @@ import XPathV.Theorems.C02
 #print axioms XPathV.Theorems.C02.C02_at_source_config
 #print axioms XPathV.Theorems.C02.C02_filter_is_list_filter
 #print axioms XPathV.Theorems.C02.evaluate_restarts_all_iterators
+#print axioms XPathV.Theorems.C02.C02_main_full
+#print axioms XPathV.Theorems.C02.C02_keeps_exactly_the_true_ones_full
+#print axioms XPathV.Theorems.C02.C02_built_predicate_truth
